@@ -92,11 +92,10 @@ func tlaSchema(a *aspec.ASpec, s aspec.Schema, depth int) map[string]any {
 		tags := []any{}
 		for _, m := range s.Of {
 			of = append(of, tlaSchema(a, m, depth+1))
-			tag := m.To // default discriminator value: the schema name
+			tag := []any{m.To} // the schema name always denotes the variant; mapping entries add aliases
 			for _, kv := range s.DiscMap {
 				if kv.V == m.To {
-					tag = kv.K
-					break
+					tag = append(tag, kv.K)
 				}
 			}
 			tags = append(tags, tag)
